@@ -1,6 +1,6 @@
 (* C14 — property theorems only: each closed by [exact] and followed by Print Assumptions. *)
 From Coq Require Import List Arith NArith ZArith.
-From AV Require Import Base.Bytes Model.C14_Ipc Model.C14_Avro Proofs.C14_Ipc Proofs.C14_Avro.
+From AV Require Import Base.Bytes Model.C14_Ipc Model.C14_Avro Model.C14_Json Proofs.C14_Ipc Proofs.C14_Avro Proofs.C14_Json.
 Import ListNotations.
 
 (* ===== IPC StreamDecoder ===================================================================== *)
@@ -124,3 +124,28 @@ Theorem ocf_block_phase_chunk_independent : forall (c1 c2 : list (list N)) (f1 f
   = (let '(_, v, st) := read_blocks f2 sync d c2 t2 vals in (v, st)).
 Proof. exact read_blocks_chunk_independent. Qed.
 Print Assumptions ocf_block_phase_chunk_independent.
+
+(* ===== JSON TapeDecoder ====================================================================== *)
+
+(* The property for one decode call of the tape decoder, with all its bulk operations: if the call
+   on a ++ b completes (the model's fuel f is not exhausted) then the call on a followed - when a
+   was consumed completely - by the call on b ends in the same decoder state (tape, string data,
+   offsets, state stack, row count), consumes the same bytes and reports the same error. *)
+Theorem json_decode_chunk_independent : forall (batch_size : nat) (flatten : bool) (f : nat) (t : tape)
+    (a b : list N) (R : jres),
+  jdecode batch_size flatten f t (a ++ b) = R -> snd R <> JOof ->
+  match jdecode batch_size flatten f t a with
+  | (t1, [], JOk) => jdecode batch_size flatten f t1 b = R
+  | (t1, rest, JOk) => R = (t1, rest ++ b, JOk)
+  | (t1, rest, JErr) => R = (t1, rest ++ b, JErr)
+  | (_, _, JOof) => False
+  end.
+Proof. exact jsplit. Qed.
+Print Assumptions json_decode_chunk_independent.
+
+(* bulk fast paths = byte-at-a-time feeding *)
+Theorem json_bulk_equals_bytewise : forall (batch_size : nat) (flatten : bool) (buf : list N) (f : nat)
+    (t : tape) (R : jres),
+  jdecode batch_size flatten f t buf = R -> snd R <> JOof -> jrun1 batch_size flatten f t buf = R.
+Proof. exact jdecode_is_jrun1. Qed.
+Print Assumptions json_bulk_equals_bytewise.
